@@ -153,7 +153,7 @@ func newUnit(prog *Program, fi *FuncInfo, blk *Block, prop string, suffix string
 		Name: prop + "/" + fi.Key, Suffix: suffix, obIdx: map[string]*Obligation{}, structs: map[string]*StructInfo{},
 		strUsed: map[string]bool{}, errUsed: map[string]bool{}, Assumed: map[string]bool{}, inlined: map[string]bool{},
 		usedContracts: map[string]string{}, addrTaken: map[types.Object]Term{}, modifiesRefs: map[string][]Term{}, poolObjs: map[string]Term{},
-		knownLits: map[string]*litInfo{}, methodConsts: map[string]bool{}, ghosts: map[string]types.Object{}, heapSorts: map[string]Sort{}, ghostTy: map[string]types.Type{}, lamTok: map[string]string{}, boxedStatic: map[string]types.Type{}, tparamWitness: map[string][]Term{}}
+		knownLits: map[string]*litInfo{}, methodConsts: map[string]bool{}, calleeFacts: map[string]bool{}, namedResults: map[string]bool{}, ghosts: map[string]types.Object{}, heapSorts: map[string]Sort{}, ghostTy: map[string]types.Type{}, lamTok: map[string]string{}, boxedStatic: map[string]types.Type{}, tparamWitness: map[string][]Term{}}
 	u.BV = blk != nil && blk.Arith == "bv"
 	return u
 }
